@@ -162,6 +162,45 @@ def probe_then_sign_sessions(rng, tables):
     return makers
 
 
+def certificate_sessions(rng, tables):
+    """OpenSSH certificate keys: the signature must cover the certificate blob AS SENT (RFC 4252 section 7)"""
+    makers = []
+    for key, calgo, cblob in L.cert_keys():
+        other = L.other_cert_same_key(cblob)
+        plain = calgo.replace("-cert-v01@openssh.com", "")
+        variants = {
+            # (blob sent, key field signed, sigkind, verdict)
+            "valid": (cblob, None, "valid", 0),
+            "valid-partial": (cblob, None, "valid", 1),
+            "signed-over-bare-key": (cblob, key.asbytes(), "cert-bare-key", 0),
+            "signed-for-another-certificate": (other, cblob, "cert-swapped", 0),
+            "other-certificate-valid": (other, None, "valid", 0),
+        }
+        for vn, (sent, signed, kind, res) in variants.items():
+            def mk(sid, key=key, calgo=calgo, sent=sent, signed=signed, kind=kind, res=res, vn=vn):
+                gen = L.Gen(rng, "c14", tables)
+                user = gen.user
+                steps = [L.pk_step(gen, sid, user, key, calgo, False, 0, sent_blob=sent),
+                         L.pk_step(gen, sid, user, key, calgo, True, res, sigkind=kind, sent_blob=sent, signed_key=signed)]
+                # in-session replay: the same user asks again, certificate swapped, signature still for the first one
+                steps.append(L.pk_step(gen, sid, user, key, calgo, True, 0, sigkind="cert-swapped",
+                                       sent_blob=L.other_cert_same_key(sent), signed_key=sent))
+                steps.append(L.pk_step(gen, sid, user, key, calgo, True, 0, sent_blob=sent))
+                for s_ in steps:
+                    s_["meta"]["scenario"] = "certificate:" + vn
+                return steps
+
+            makers.append((False, mk))
+
+        def mk_plain(sid, key=key, plain=plain):
+            # the same private key used as a plain key: still fine
+            gen = L.Gen(rng, "c14", tables)
+            return [L.pk_step(gen, sid, gen.user, key, plain, True, 0)]
+
+        makers.append((False, mk_plain))
+    return makers
+
+
 def outstanding_sessions(rng, tables):
     """user A leaves something outstanding (interactive query / key probe / GSS exchange), possibly fails another
     method, then user B shows up with a probe / query / plain request, then the outstanding exchange is completed
@@ -227,6 +266,8 @@ def run(ctx):
                 "success/partial/failure/odd codes; plus both GSS methods walked to the end for every callback result, and key "
                 "probes followed by signed requests for the same / another key / another algorithm / a bad signature with "
                 "the application's answer varying per call (probe: success|partial, then success|partial|failure); "
+                "OpenSSH certificate keys (signature over the certificate as sent / over the bare subject key / made for another "
+                "certificate of the same key; in-session replay with the certificate swapped); "
                 "cross-user interleavings around an outstanding interactive query / key probe / GSS exchange (user A starts, "
                 "optionally fails another method, user B probes / queries / asks, the outstanding exchange completes). "
                 "distinct = distinct (message, outcome) sequences; non-trivial = the session contains a USERAUTH_SUCCESS")
@@ -240,6 +281,7 @@ def run(ctx):
     ctx.build(extra_modules=["PV.Model.AuthServerDriver"])
     makers = gss_sessions(ctx.rng, tables)
     makers += probe_then_sign_sessions(ctx.rng, tables)
+    makers += certificate_sessions(ctx.rng, tables)
     om = outstanding_sessions(ctx.rng, tables)
     makers += om if ctx.thorough else ctx.rng.sample(om, 40)
     makers += L.profile_makers(ctx, "c14", 600 if ctx.thorough else 110, tables)
@@ -285,8 +327,8 @@ META = {
               "accepts exactly the blob the client really signed, so the server's blob construction is compared too."),
     "note": ("Trusted: Lean kernel + 3 standard axioms; the harness; cryptography/nacl signature verification "
              "(unforgeability is a hypothesis of replayed_signature_rejected only, a toy instance is exhibited); key "
-             "parsing by paramiko's key classes and the stub GSS context are inputs of the model. Certificates "
-             "(-cert-v01) are not generated. RSA hash-algorithm agreement between declared algorithm and signature is "
+             "parsing by paramiko's key classes and the stub GSS context are inputs of the model. Certificate keys are generated (Ed25519, ECDSA; paramiko does not check the CA signature, "
+             "so 'another certificate of the same key' is the certificate with a different nonce). RSA hash-algorithm agreement between declared algorithm and signature is "
              "C07's subject and not generated here. An unsolicited USERAUTH_INFO_RESPONSE is passed to "
              "check_auth_interactive_response with no username pinned; a SUCCESS there is still the application's "
              "approval (modelled as such). Defects found and fixed: server gssapi-keyex and gssapi-with-mic ignored the "
